@@ -38,18 +38,18 @@ func authKey(r *rand.Rand) ([]byte, string) { return keyLike(r, 256) }
 func c03(c *wk.Ctx) {
 	idx := 0
 	// every body length 0..N (every padding residue many times), then sampled lengths up to 2^16
-	dense := c.Pick(1024, 16384)
+	dense := c.Pick(4096, 65536)
 	var lens []int
 	for n := 0; n <= dense; n++ {
 		lens = append(lens, n)
 	}
-	sparse := c.Pick(200, 3000)
+	sparse := c.Pick(300, 0)
 	lr := rand.New(rand.NewSource(c.Seed))
 	for i := 0; i < sparse; i++ {
-		lens = append(lens, dense+1+lr.Intn(65536-dense))
+		lens = append(lens, dense+1+lr.Intn(65537-dense))
 	}
 	lens = append(lens, 65535, 65536)
-	reps := c.Pick(2, 4)
+	reps := c.Pick(2, 8)
 	for _, n := range lens {
 		for rep := 0; rep < reps; rep++ {
 			if c.Mine(idx) {
